@@ -620,3 +620,26 @@ Fixpoint mrun (fuel : nat) (st : mstate) (ops : list mop) : option (list mstate)
       | None => None
       end
   end.
+
+(* ------------------------------- which tasks copy_expr_from takes from a manager *)
+
+(* the container a reference is rooted in: _check_root_owner walks the _owner
+   chain up to the container ref and compares by IDENTITY; container refs are
+   identified by their label (labels are unique in a manager) *)
+Fixpoint root_label (t : term) : option pystr :=
+  match t with
+  | TTop l _ => Some l
+  | TItem o _ | TAttr o _ => root_label o
+  | _ => None
+  end.
+
+Definition owned_by (name : pystr) (d : taskdef) : bool :=
+  match root_label (fst d) with Some l => pystr_eqb l name | None => false end.
+
+(* iter_expr_tasks_owner: the ExprTasks rooted in the named container, in dict order *)
+Definition select_owner (name : pystr) (tasks : list taskdef) : list taskdef := filter (owned_by name) tasks.
+
+(* mgr.copy_expr_from(src, name, bindings, overwrite) *)
+Definition copy_expr_from (fuel : nat) (st : mstate) (src : list taskdef) (name : pystr)
+  (binds : list (pystr * term)) (overwrite : bool) : option mstate :=
+  mstep fuel st (MCopy overwrite (select_owner name src) binds).
